@@ -30,7 +30,7 @@ type c10Case struct {
 	Pre int `json:"pre,omitempty"`
 }
 
-var c10ToggleNames = []string{"profile", "relative-validity", "absolute-validity", "manipulations", "imported-key", "csr-leaf", "nested+alias", "same-stem-two-suffixes"}
+var c10ToggleNames = []string{"profile", "relative-validity", "absolute-validity", "manipulations", "imported-key", "csr-leaf", "nested+alias", "same-stem-two-suffixes", "extension-list"}
 var c10Answers = []string{"y\n", "n\n", "N\n", "\n", "", "yes\n", "x\n", "y", " y \n"}
 
 var c10Foreign = map[string]string{
@@ -80,6 +80,18 @@ func c10Build(hier int, toggles []int) (*Dir, map[string][]byte) {
 		}
 		if has(1) && has(2) && i%2 == 1 {
 			cfg.Validity = &refcfg.Validity{Until: "2041-05-06"}
+		}
+		if has(8) {
+			t := true
+			cfg.Exts = []refcfg.Ext{
+				{Kind: refcfg.KSAN, SAN: &[]refcfg.GeneralName{{Type: "dns", Name: fmt.Sprintf("Host%d.Example.ORG", i)}, {Type: "mail", Name: "Some.One@Example.ORG"}, {Type: "ip", Name: "10.0.0.1"}}},
+				{Kind: refcfg.KBC, Critical: &t, BC: &refcfg.BasicConstraints{Ca: &t, PathLen: refcfg.I(3)}},
+				{Kind: refcfg.KAIA, AIA: refcfg.Strs("HTTP://OCSP.Example.ORG/Status#")},
+				{Kind: refcfg.KEKU, EKU: refcfg.Strs("clientAuth", "1.2.3.4.5")},
+				{Kind: refcfg.KCP, CP: &[]refcfg.Policy{{Oid: "1.2.3.4", Qualifiers: &[]refcfg.Qualifier{{Cps: refcfg.S("HTTP://CPS.Example.ORG/")}}}}},
+				{Kind: refcfg.KADM, ADM: &refcfg.Admission{AdmissionAuthority: &refcfg.GeneralName{Type: "url", Name: "LDAP://Kammer.Example.ORG/"}, Admissions: []refcfg.Admissions{{ProfessionInfos: []refcfg.ProfessionInfo{{ProfessionItems: []string{"Ärztin/Arzt"}, ProfessionOids: refcfg.Strs("1.2.276.0.76.4.30")}}}}}},
+				{Kind: refcfg.KCustom, CustomOID: "1.2.3.4.5.6", Raw: refcfg.Bin([]byte{4, 2, 0xca, 0xfe})},
+			}
 		}
 		last := i == n-1
 		if last && has(0) {
@@ -155,6 +167,11 @@ func c10Enumerate(tier string, yield func(any)) {
 	}
 	// two configurations with different aliases whose files differ only in the suffix (one artifact file)
 	toggleSets = append(toggleSets, []int{7})
+	// every entity carries a list of extensions with mixed-case names (nothing the build does to them may reach the stored hash)
+	toggleSets = append(toggleSets, []int{8})
+	for a := 0; a < 7; a++ {
+		toggleSets = append(toggleSets, []int{a, 8})
+	}
 	if tier == "thorough" {
 		for a := 0; a < 7; a++ {
 			for b := a + 1; b < 7; b++ {
@@ -447,7 +464,7 @@ func init() {
 	register(&engine.Check{
 		ID:          "C10",
 		Level:       "model_checking",
-		Rule:        "4 hierarchies (root; root+sub; 3-tier chain; root+2 subs) x toggle sets of size <=2 (thorough <=4 and all seven) over {profile, relative validity, absolute validity (current, not yet valid and expired-by-design periods by position), manipulations, imported key, CSR-based leaf, nested directories + explicit aliases} x 16 flag sets without generate-all x 2 clock modes (tick per write / one tick per run), 5 foreign files present: run, then run again with the same flags - from the fresh directory and (for the <=1-toggle worlds; all in thorough) after four histories: settled + edit of the root's subject, of the last entity's subject, of its extensions plus touching every config, deletion of its artifact. Second run: empty plan, nothing generated, empty write log, directory identical including mtimes. First run: changed paths = artifact paths of exactly the reported entities, no other path changed or created. The same run;run on the built binary in a native directory for every flag set on the <=1-toggle worlds and a diagonal of the rest; consent: 9 stdin answers on 14 worlds with a pending replacement (incl. replaced entities that hold a certificate but no private key: request-based, key stripped) (only `y` replaces, others leave the directory identical and exit 0, no prompt when nothing is replaced). states = worlds, transitions = runs, traces_validated = binary runs",
+		Rule:        "4 hierarchies (root; root+sub; 3-tier chain; root+2 subs) x toggle sets of size <=2 (thorough <=4 and all seven) over {profile, relative validity, absolute validity (current, not yet valid and expired-by-design periods by position), manipulations, imported key, CSR-based leaf, nested directories + explicit aliases; plus a world where two configurations share an artifact file and worlds where every entity carries seven extensions with mixed-case names} x 16 flag sets without generate-all x 2 clock modes (tick per write / one tick per run), 5 foreign files present: run, then run again with the same flags - from the fresh directory and (for the <=1-toggle worlds; all in thorough) after four histories: settled + edit of the root's subject, of the last entity's subject, of its extensions plus touching every config, deletion of its artifact. Second run: empty plan, nothing generated, empty write log, directory identical including mtimes. First run: changed paths = artifact paths of exactly the reported entities, no other path changed or created. The same run;run on the built binary in a native directory for every flag set on the <=1-toggle worlds and a diagonal of the rest; consent: 9 stdin answers on 14 worlds with a pending replacement (incl. replaced entities that hold a certificate but no private key: request-based, key stripped) (only `y` replaces, others leave the directory identical and exit 0, no prompt when nothing is replaced). states = worlds, transitions = runs, traces_validated = binary runs",
 		Bound:       map[string]string{"toggle set size": "quick<=2 thorough<=4 + all"},
 		Assumptions: []string{"answers `y` without newline and ` y ` are accepted by the code; the statement says `y`, so they are not demanded either way"},
 		Budget:      budgets(quickBudget, thoroughBudget),
